@@ -56,10 +56,10 @@ CHECKS += [
  session("C17", "6/C17", "The developers' debug assertions are state invariants of the core model (clean trees, never down) checked by TLC over every alphabet; offender sessions send odd requests in any order and a catalogue of undecodable lines while a witness session's round trips must keep being answered correctly (debug build; a panic of the core task is an observation the spec cannot explain)."),
 ]
 
-c16 = core("C16", "6/C16", "TLC checks the aggregator step machine (flag, two ordered buffers, outstanding sleep tasks, one-slot tick channel, select! race) for every arrival sequence within the bounds: nothing lost, duplicated or reordered, no event older than the interval, a pending flush for every non-empty buffer, and (thorough) every event eventually sent under weak fairness; the real PStateAggregator runs on tokio's paused clock and TLC decides whether the recorded batches and their virtual send times are a behaviour of the spec.")
+c16 = core("C16", "6/C16", "TLC checks the aggregator step machine (flag, two ordered buffers, outstanding sleep tasks, one-slot tick channel, select! race) for every arrival sequence within the bounds: nothing lost, duplicated or reordered, no event older than the interval, a pending flush for every non-empty buffer, and (thorough) every event eventually sent under weak fairness; the real PStateAggregator runs on tokio's paused clock and TLC decides whether the recorded batches and their virtual send times are a behaviour of the spec. On live sessions (socket) aggregated pattern subscriptions run next to writers; what the subscriber receives must be, key by key, the event sequence the core specification delivers to that subscription (snapshot first, nothing lost, duplicated or reordered, one kind and no key twice per batch).")
 c16["engine"] = "tlc-aggregator"
 c16["technique"] = "TLA+ spec (Aggregator) checked by TLC incl. liveness; paused-clock execution of the real aggregator validated by TLC with internal steps inferred"
-c16["level_note"] = "Trusted: TLC, tokio's paused clock, the agg_drv harness. Virtual time in 1 ms steps; client channel never full; the live-session content comparison is not built."
+c16["level_note"] = "Trusted: TLC, tokio's paused clock, the agg_drv harness, the socket harness for the live-session part. Virtual time in 1 ms steps; client channel never full; on live sessions content and per-key order are compared (batch timing only on the aggregator alone)."
 CHECKS.append(c16)
 
 def cluster(pid, sec, text):
